@@ -619,7 +619,7 @@ class C16(Profile):
             w["flag_on_processed"] = 0.8
         g = Gen(rng, engines=engines, weights=w, max_ops=14 if big else 10, nleaves=(2, 3), special_leaf_p=0.3,
                 flags_p=0.1 if mode == "multi" else 0.0,
-                bounds=("exact", "loose", "zeromin", "unbounded"), redeclare_p=0.25)
+                bounds=("exact", "loose", "zeromin", "unbounded"), redeclare_p=0.25, adjacent_p=0.3)
         return {"config": swarm_config(rng), "ops": g.build()}
 
     def dn_keys(self, run):
